@@ -60,7 +60,12 @@ func runC33(t *testing.T, ch *sim.Choices, tier string) (o Outcome) {
 	stmt := gen.Draw(2) == 1
 	bias := []int{0, 0, 2, 6}[gen.Draw(4)]
 	cfgN := sim.SchedConfig{MaxSteps: 600, QuantumMax: 1, Bias: bias}
-	cfgI := sim.SchedConfig{MaxSteps: 2500, QuantumMax: 1, Bias: bias, ProtoYield: true, StmtYield: stmt}
+	// with real identities, whether the registry already holds an entry for a goroutine
+	// depends on the Go runtime's recycling of g structs; the lookup-or-create path then has a
+	// different number of protocol steps from process to process. Protocol-step yields are
+	// therefore decision points only with simulated identities (where reuse is seeded);
+	// with real identities the interleaving is explored at statement granularity.
+	cfgI := sim.SchedConfig{MaxSteps: 2500, QuantumMax: 1, Bias: bias, ProtoYield: mode == 1, StmtYield: stmt || mode == 0}
 	if stmt {
 		cfgI.QuantumMax = []int{1, 3, 8}[gen.Draw(3)]
 	}
@@ -73,6 +78,7 @@ func runC33(t *testing.T, ch *sim.Choices, tier string) (o Outcome) {
 	itp := runConcurrent(t, ch.Fork(), cfgI, true, spec, "Main()", func(s *sim.Sched, ir *fast.Interp) {
 		mon = &ownMonitor{s: s, mode: mode}
 		mon.install()
+		hs.SkipCreateYield = mode == 0
 	})
 	o.Steps, o.SimNanos = itp.Steps, itp.SimNanos
 	o.EventHash = sim.Mix(nat.hashAll(), itp.hashAll())
